@@ -250,6 +250,8 @@ func crashAssert(r *core.Report, cs *crashScope, table map[string]assertExcuse) 
 						r.OK(key, p.Pos(ta.Pos()), why)
 					} else if why := poolAssert(p, fn, ta); why != "" {
 						r.OK(key, p.Pos(ta.Pos()), why)
+					} else if why := syncMapAssert(p, ta); why != "" {
+						r.OK(key, p.Pos(ta.Pos()), why)
 					} else if ex, ok := table[name]; ok {
 						if bad := ex.verify(); bad != "" {
 							r.Bad(key, p.Pos(ta.Pos()), "unchecked type assertion whose justification no longer holds: "+bad)
@@ -288,6 +290,70 @@ func poolAssert(p *core.Prog, fn *ssa.Function, ta *ssa.TypeAssert) string {
 		return false
 	})
 	return why
+}
+
+// syncMapAssert: the operand is the value of Load/LoadOrStore on a package-level sync.Map into which
+// the reachable program only ever stores values whose static type satisfies the asserted type.
+func syncMapAssert(p *core.Prog, ta *ssa.TypeAssert) string {
+	ex, ok := ta.X.(*ssa.Extract)
+	if !ok || ex.Index != 0 {
+		return ""
+	}
+	call, ok := ex.Tuple.(*ssa.Call)
+	if !ok {
+		return ""
+	}
+	sc := call.Common().StaticCallee()
+	if sc == nil || sc.Pkg == nil || sc.Pkg.Pkg.Path() != "sync" || (sc.Name() != "Load" && sc.Name() != "LoadOrStore" && sc.Name() != "LoadAndDelete") || len(call.Common().Args) == 0 {
+		return ""
+	}
+	g, ok := call.Common().Args[0].(*ssa.Global)
+	if !ok {
+		return ""
+	}
+	n := 0
+	for _, fn := range p.RepoSSAFuncs() {
+		for _, b := range fn.Blocks {
+			for _, in := range b.Instrs {
+				c, ok := in.(*ssa.Call)
+				if !ok {
+					continue
+				}
+				s2 := c.Common().StaticCallee()
+				if s2 == nil || s2.Pkg == nil || s2.Pkg.Pkg.Path() != "sync" || len(c.Common().Args) == 0 || c.Common().Args[0] != ssa.Value(g) {
+					continue
+				}
+				var stored []ssa.Value
+				switch s2.Name() {
+				case "Store", "LoadOrStore", "Swap":
+					stored = append(stored, c.Common().Args[2])
+				case "CompareAndSwap":
+					stored = append(stored, c.Common().Args[3])
+				}
+				for _, v := range stored {
+					n++
+					st := v.Type()
+					if mi, ok := v.(*ssa.MakeInterface); ok {
+						st = mi.X.Type()
+					}
+					if ci, ok := v.(*ssa.ChangeInterface); ok {
+						st = ci.X.Type()
+					}
+					if it, ok := ta.AssertedType.Underlying().(*types.Interface); ok {
+						if !types.Implements(st, it) {
+							return ""
+						}
+					} else if !types.Identical(st, ta.AssertedType) {
+						return ""
+					}
+				}
+			}
+		}
+	}
+	if n == 0 {
+		return ""
+	}
+	return "operand is loaded from the package-level sync.Map " + g.Name() + ", into which only values of this type are stored"
 }
 
 func assertDischarged(ta *ssa.TypeAssert) string {
